@@ -527,16 +527,23 @@ func (v *Visitor) Visit(s *df.AnalyzerState, source df.NodeWithTrace) {
 						que = v.addNext(s, que, cur, nil, nextNodeWithTrace, cur.Status, edgeInfo)
 					}
 				}
-			} else if cur.ClosureTrace != nil {
+			} else if cur.ClosureTrace != nil && cur.ClosureTrace.Label.ClosureSummary == graphNode.Graph() {
+				// The closure on top of the closure trace is the one this free variable belongs to. Otherwise, the
+				// context does not match and the data flows back to all the places where the closure is created.
 				bvs := cur.ClosureTrace.Label.BoundVars()
 				if len(bvs) == 0 {
 					panic("no bound vars")
 				}
 				if graphNode.Index() < len(bvs) {
 					bv := bvs[graphNode.Index()]
+					// the closure may have been entered without a call stack (e.g. from a bound label)
+					parentTrace := cur.Trace
+					if parentTrace != nil {
+						parentTrace = parentTrace.Parent
+					}
 					nextNodeWithTrace := df.NodeWithTrace{
 						Node:         bv,
-						Trace:        cur.Trace.Parent,
+						Trace:        parentTrace,
 						ClosureTrace: cur.ClosureTrace.Parent,
 					}
 					que = v.addNext(s, que, cur, nil, nextNodeWithTrace, cur.Status, df.EdgeInfo{})
